@@ -175,8 +175,9 @@ public:
         }
 
         auto& [props, rcs] = *suback;
+        auto num_rcs = rcs.size();
         auto reason_codes = to_reason_codes(std::move(rcs));
-        if (reason_codes.size() != _num_topics) {
+        if (num_rcs != _num_topics || reason_codes.size() != _num_topics) {
             on_malformed_packet(
                 "Malformed SUBACK: does not contain a "
                 "valid Reason Code for every Topic Filter"
